@@ -399,7 +399,10 @@ def build_strategy(bt, spec, spy_log=None):
         if spy_log is not None:
             algos = [Spy()] + algos
         kids = [mk(k) for k in t.get("kids", [])]
-        children = kids + list(t["tickers"] or []) if (t.get("tickers") is not None) else (kids or None)
+        tick_children = list(t["tickers"] or [])
+        if spec.get("eager"):
+            tick_children = [bt.Security(x) for x in tick_children]      # constructed up front instead of on first use
+        children = kids + tick_children if (t.get("tickers") is not None) else (kids or None)
         if not children:
             children = None
         cls = bt.FixedIncomeStrategy if spec.get("fi") else bt.Strategy
